@@ -105,7 +105,7 @@ func kindProvenance(w *World, r *Result, rule, fn string, minSites int) int {
 	n := 0
 	ast.Inspect(fi.Decl.Body, func(x ast.Node) bool {
 		call, ok := x.(*ast.CallExpr)
-		if !ok || fullName(calleeOf(info, call)) != "fmt.Sprintf" {
+		if !ok || !isSprintf(info, &call) {
 			return true
 		}
 		format, vas := verbArgs(info, call)
@@ -170,4 +170,29 @@ func siblingAgreement(w *World, r *Result, rule string, fns []string) {
 		r.cond(setEq(acc[ref], acc[f]), rule, f, "accepted kinds agree with "+ref[strings.LastIndex(ref, ".")+1:], pos[f],
 			"both accept {"+strings.Join(acc[f], ",")+"}", "this function accepts {"+strings.Join(acc[f], ",")+"} while "+ref+" accepts {"+strings.Join(acc[ref], ",")+"}: a kind is named but not defined (or defined but refused when named)")
 	}
+}
+
+// isSprintf: *pc formats text the way fmt.Sprintf does. For fmt.Sprintf itself it is left alone; for
+// fmt.Fprintf(&b, format, args…) writing into a strings.Builder / bytes.Buffer, *pc is replaced by an equivalent
+// Sprintf-shaped call (format first), so that rules reading "the text built here" see both spellings alike.
+func isSprintf(info *types.Info, pc **ast.CallExpr) bool {
+	call := *pc
+	if call == nil {
+		return false
+	}
+	switch fullName(calleeOf(info, call)) {
+	case "fmt.Sprintf":
+		return true
+	case "fmt.Fprintf":
+		if len(call.Args) < 2 {
+			return false
+		}
+		t := info.TypeOf(call.Args[0])
+		if t == nil || !(strings.HasSuffix(t.String(), "strings.Builder") || strings.HasSuffix(t.String(), "bytes.Buffer")) {
+			return false
+		}
+		*pc = &ast.CallExpr{Fun: call.Fun, Lparen: call.Lparen, Args: call.Args[1:], Ellipsis: call.Ellipsis, Rparen: call.Rparen}
+		return true
+	}
+	return false
 }
